@@ -19,6 +19,9 @@ func HarnessC16Reply() {
 	res := c16Result{N: vrt.Int("n", -1000, 1000), S: vrt.Str("s")}
 	var herr error
 	text := vrt.Str("errtext")
+	if vrt.Bool("errtext.with.percent.signs") {
+		text = "disk is 100% full, 7%% left, ends with %" // an error text is data, never a format
+	}
 	if vrt.Bool("has.error") {
 		herr = errors.New(text)
 	}
